@@ -195,30 +195,17 @@ func runC12(c *kit.Ctx) {
 				nt := kit.ReceiverNamed(ta.AssertedType)
 				return nt != nil && classes[nt.Obj().Name()] && nt.Obj().Pkg().Path() == kit.Module+"/region"
 			}
-			tas := assertedTypesAt(call.Block())
-			okClass := len(tas) > 0
-			for _, ta := range tas {
-				if !isClass(ta) {
-					okClass = false
-				}
-			}
-			if len(tas) == 0 {
-				// a case listing several classes: every edge into the case body carries one successful class assertion
-				okClass = len(call.Block().Preds) > 0
-				for _, pr := range call.Block().Preds {
-					edgeOK := false
-					for _, f := range kit.EdgeFacts(pr, call.Block()) {
-						if ex, ok := f.Cond.(*ssa.Extract); ok && f.Pol && ex.Index == 1 {
-							if ta, ok := ex.Tuple.(*ssa.TypeAssert); ok && ta.CommaOk && isClass(ta) {
-								edgeOK = true
-							}
+			// on every way into this block one assertion to a retryable class has succeeded
+			okClass := kit.OnAllWays(call.Block(), func(fs []kit.Fact) bool {
+				for _, f := range fs {
+					if ex, ok := f.Cond.(*ssa.Extract); ok && f.Pol && ex.Index == 1 {
+						if ta, ok := ex.Tuple.(*ssa.TypeAssert); ok && ta.CommaOk && isClass(ta) {
+							return true
 						}
 					}
-					if !edgeOK {
-						okClass = false
-					}
 				}
-			}
+				return false
+			}, 0)
 			onErr := false
 			for _, f := range kit.FactsAt(call.Block()) {
 				if cmp, ok := kit.CanonCmp(f.Cond, f.Pol); ok && cmp.Op == token.NEQ && kit.IsNilConst(cmp.Y) && kit.IsErrorType(cmp.X.Type()) {
